@@ -191,3 +191,6 @@ func (p *Pool) Put(x interface{}) {
 	vsched.Touch(unsafe.Pointer(p), true)
 	p.items = append(p.items, x)
 }
+
+// Reset empties the pool (harness use between executions).
+func (p *Pool) Reset() { p.items = nil }
